@@ -44,5 +44,14 @@ for n in (1, 2, 3, 4, 5):
                 if bad <= 5:
                     print(f"api replay: hunk {''.join(kinds)!r} with --line-buffer-size {bufsize}: lines shown {seen}, expected {want} (exit {p.returncode})")
                     open(os.path.join(outdir, f"api_replay_hunk_{bad}.diff"), "w").write(diff)
+# adjacent hunks without context (git diff -U0), with and without a visible hunk header
+adj = ("diff --git a/f.txt b/f.txt\nindex 1111111..2222222 100644\n--- a/f.txt\n+++ b/f.txt\n@@ -1 +1,2 @@\n-line0of6x\n+line1of6x\n+line2of6x\n@@ -5,2 +6 @@\n-line3of6x\n-line4of6x\n+line5of6x\n")
+for extra in ([], ["--hunk-header-style", "omit"], ["--hunk-header-style", "omit", "--line-numbers"], ["--hunk-header-style", "raw"]):
+    p = subprocess.run([exe, "--no-gitconfig"] + extra, input=adj, capture_output=True, text=True, env=env)
+    seen = re.findall(r"line\d+of\d+x", ANSI.sub("", p.stdout))
+    want = [f"line{i}of6x" for i in range(6)]
+    if p.returncode != 0 or seen != want:
+        bad += 1
+        print(f"api replay: adjacent hunks with {extra}: lines shown {seen}, expected {want} (exit {p.returncode})")
 print(f"api replay: {bad} hunk(s) in which a line is dropped, duplicated or reordered")
 sys.exit(1 if bad else 0)
